@@ -318,6 +318,9 @@ package silence
 //@   after call uuid.UUID).String assume !(res0 in s.st) && res0 != ""
 //@   ensures [unknown-id] old(sil.Id) != "" && !old(sil.Id in s.st) ==> result != nil && dom(s.st) == old(dom(s.st)) && vals(s.st) == old(vals(s.st))
 //@   ensures [rejected-before-mutation] result != nil && !called("setSilence") && !called(").expire") ==> dom(s.st) == old(dom(s.st)) && vals(s.st) == old(vals(s.st)) && s.version == old(s.version)
+//@   at call checkSizeLimits assert [measured-as-it-will-be-stored] arg1 == ret("toMeshSilence") && arg1.Silence == sil && sil.UpdatedAt != nil && tsT(sil.UpdatedAt) == first("nowUTC")
+//@             && ((called("canUpdate") && ret("canUpdate")) || (called("uuid.NewRandom") && sil.Id != "" && (let nid = sil.Id in !old(nid in s.st)) && tsT(sil.StartsAt) >= first("nowUTC")))
+//@   at call setSilence assert [stored-is-what-was-measured] called("checkSizeLimits") && ret("checkSizeLimits") == nil && arg1 == ret("toMeshSilence") && arg1.Silence == sil
 //@   at call ).expire assert [limits-before-expire] called("proto.Size") || s.limits.MaxSilenceSizeBytes == nil
 //@   ensures [update-keeps-id] result == nil && called("canUpdate") && ret("canUpdate") ==> sil.Id == old(sil.Id) && dom(s.st) == old(dom(s.st))
 //@             && (forall k string :: k != sil.Id ==> s.st[k] == old(s.st[k])) && tsT(sil.UpdatedAt) == first("nowUTC")
